@@ -5,9 +5,12 @@ import (
 	"bytes"
 	"context"
 	"fmt"
+	"github.com/transparency-dev/witness/internal/persistence"
+	"github.com/transparency-dev/witness/internal/verif/kit/seams"
 	"math/rand/v2"
 	"net/http"
 	"net/http/httptest"
+	"sync"
 	"time"
 
 	"github.com/gorilla/mux"
@@ -75,6 +78,9 @@ func main() {
 		h.Close()
 		_ = lastAccepted
 	})
+	// a read held open across an accepted update must not decide what a LATER read returns
+	run.Floor("reads_issued_after_update_while_older_read_open", 40)
+	run.Units("overlap", run.Pick(64, 640), 16, func(unit int64, r *rand.Rand) { overlap(run, unit, r, dir) })
 	// discriminating refreshes: own small witnesses, waits in parallel
 	run.Units("refresh", disc, 32, func(unit int64, r *rand.Rand) { refresh(run, unit, r, dir) })
 }
@@ -247,5 +253,117 @@ func refresh(run *ev.Run, unit int64, r *rand.Rand, dir string) {
 	}
 	if unit < 2 {
 		run.Sample(map[string]any{"first_T": ts0, "refresh_T": ts1, "window": []int64{t0, t1}, "returned": string(ret2)})
+	}
+}
+
+// overlap: read A (HTTP GET or in-process GetCheckpoint) is paused after it has fetched its value from the
+// store and before it returns; an update is then accepted; read B is issued after that update returned.
+// B must return exactly the bytes the update returned - whatever A returns (it overlaps the update).
+func overlap(run *ev.Run, unit int64, r *rand.Rand, dir string) {
+	u := gen.NewUniverse(r, gen.Opts{NLogs: 1, MaxSize: 30, Branches: 1})
+	kind := wit.DrawStore(r)
+	st, err := wit.NewStore(kind, dir)
+	if err != nil {
+		run.Inconclusive(err.Error())
+		return
+	}
+	defer st.Close()
+	keys, _ := wit.NewWitKeys(r, []bool{false, true}, true)
+	var hook *seams.HookStore
+	rn, err := wit.NewRunner(u, keys, st, func(p persistence.LogStatePersistence) persistence.LogStatePersistence {
+		hook = seams.NewHookStore(p)
+		return hook
+	})
+	if err != nil {
+		run.Inconclusive(err.Error())
+		return
+	}
+	router := mux.NewRouter()
+	ihttp.NewServer(rn.W).RegisterHandlers(router)
+	l := u.Logs[0]
+	viaHTTP := unit%2 == 0
+	read := func() (int, []byte) {
+		if viaHTTP {
+			rec := httptest.NewRecorder()
+			router.ServeHTTP(rec, httptest.NewRequest(http.MethodGet, "/witness/v0/logs/"+l.ID+"/checkpoint", nil))
+			return rec.Code, rec.Body.Bytes()
+		}
+		b, err := rn.W.GetCheckpoint(l.ID)
+		if err != nil {
+			return 500, nil
+		}
+		return 200, b
+	}
+	size := uint64(0)
+	firstUse := unit%5 == 4 // A reads "nothing stored", then the first checkpoint is accepted
+	if !firstUse {
+		size = 1 + r.Uint64N(10)
+		if _, err := rn.W.Update(context.Background(), l.ID, 0, l.Honest(0, size), nil); err != nil {
+			run.Inconclusive("first update refused: " + err.Error())
+			return
+		}
+	}
+	paused, release := make(chan struct{}), make(chan struct{})
+	var once sync.Once
+	hook.SetAfterRead(func(string) {
+		first := false
+		once.Do(func() { first = true })
+		if first {
+			close(paused)
+			<-release
+		}
+	})
+	aDone := make(chan struct{})
+	go func() { read(); close(aDone) }()
+	select {
+	case <-paused:
+	case <-aDone:
+		run.Inconclusive("read A returned without reaching the store")
+		return
+	case <-time.After(20 * time.Second):
+		run.Inconclusive("watchdog: read A never reached the store")
+		close(release)
+		return
+	}
+	next := size + uint64(r.IntN(3)) // growth or refresh
+	if size == 0 {
+		next = 1 + r.Uint64N(10)
+	}
+	ret, uerr := rn.W.Update(context.Background(), l.ID, size, l.Honest(0, next), l.Branches[0].Consistency(size, next))
+	if uerr != nil {
+		close(release)
+		<-aDone
+		run.Inconclusive(fmt.Sprintf("honest update %d->%d refused while a read was open: %v", size, next, uerr))
+		return
+	}
+	type res struct {
+		code int
+		b    []byte
+	}
+	bch := make(chan res, 1)
+	go func() { c, b := read(); bch <- res{c, b} }()
+	var got res
+	waited := false
+	select {
+	case got = <-bch:
+	case <-time.After(300 * time.Millisecond):
+		// B waits for A (it may legitimately queue behind it): let A go; B is judged on its bytes alone
+		waited = true
+	}
+	close(release)
+	if waited {
+		select {
+		case got = <-bch:
+		case <-time.After(30 * time.Second):
+			run.Inconclusive("watchdog: read B did not return after read A was released")
+			return
+		}
+	}
+	<-aDone
+	run.Count("evaluations")
+	run.Count("reads_issued_after_update_while_older_read_open")
+	run.Distinct("nontrivial", fmt.Sprintf("overlap/http=%v/first=%v/refresh=%v/%s/queued_behind_A=%v", viaHTTP, firstUse, next == size, kind, waited))
+	if got.code != 200 || !bytes.Equal(got.b, ret) {
+		run.Violate(fmt.Sprintf("read_after_accept_differs;older_read_open;http=%v", viaHTTP), fmt.Sprintf("a read issued after an accepted update (%d->%d) returned status %d and bytes that are not the update's result, while an older read of the same log was still open", size, next, got.code), unit, map[string]any{"store": kind, "returned_by_update": string(ret), "read": string(got.b)})
 	}
 }
